@@ -439,6 +439,130 @@ end Slug.Generated
 	writeIfChanged(p, content)
 }
 
+
+// ---------- constants and entry-type sets of Pack/Unpack ----------
+
+func intLit(e ast.Expr) (int64, bool) {
+	if bl, ok := e.(*ast.BasicLit); ok && bl.Kind == token.INT {
+		v, err := strconv.ParseInt(bl.Value, 0, 64)
+		return v, err == nil
+	}
+	return 0, false
+}
+
+// literal integer arguments (position argIdx) of every call of fn inside function fnName of f
+func callIntArgs(f *ast.File, inFunc, fn string, argIdx int) []int64 {
+	var out []int64
+	for _, d := range f.Decls {
+		fd, ok := d.(*ast.FuncDecl)
+		if !ok || fd.Body == nil || fd.Name.Name != inFunc {
+			continue
+		}
+		ast.Inspect(fd.Body, func(n ast.Node) bool {
+			if c, ok := n.(*ast.CallExpr); ok && exprText(c.Fun) == fn && len(c.Args) > argIdx {
+				if v, ok := intLit(c.Args[argIdx]); ok {
+					out = append(out, v)
+				}
+			}
+			return true
+		})
+	}
+	return out
+}
+
+// names X of selectors tar.X compared with i.Typeflag in method name of UnpackInfo
+func typeflagNames(f *ast.File, method string) []string {
+	var out []string
+	for _, d := range f.Decls {
+		fd, ok := d.(*ast.FuncDecl)
+		if !ok || fd.Body == nil || fd.Recv == nil || fd.Name.Name != method {
+			continue
+		}
+		ast.Inspect(fd.Body, func(n ast.Node) bool {
+			if b, ok := n.(*ast.BinaryExpr); ok && b.Op == token.EQL {
+				for _, side := range []ast.Expr{b.X, b.Y} {
+					if t := exprText(side); strings.HasPrefix(t, "tar.Type") {
+						out = append(out, strings.TrimPrefix(t, "tar."))
+					}
+				}
+			}
+			return true
+		})
+	}
+	return out
+}
+
+func int64List(xs []int64) string {
+	var ss []string
+	for _, x := range xs {
+		ss = append(ss, strconv.FormatInt(x, 10))
+	}
+	return "[" + strings.Join(ss, ", ") + "]"
+}
+
+func extractSlug(repo, out string) {
+	p := filepath.Join(out, "Slug.lean")
+	f, _ := parseFile(filepath.Join(repo, "slug.go"))
+	u, _ := parseFile(filepath.Join(repo, "internal/unpackinfo/unpackinfo.go"))
+	ok := f != nil && u != nil
+	maxHops := int64(-1)
+	if f != nil {
+		for _, d := range f.Decls {
+			gd, isGen := d.(*ast.GenDecl)
+			if !isGen || gd.Tok != token.CONST {
+				continue
+			}
+			for _, sp := range gd.Specs {
+				vs := sp.(*ast.ValueSpec)
+				for i, n := range vs.Names {
+					if n.Name == "maxLinkHops" && i < len(vs.Values) {
+						if v, isInt := intLit(vs.Values[i]); isInt {
+							maxHops = v
+						}
+					}
+				}
+			}
+		}
+	}
+	if maxHops < 0 {
+		ok = false
+	}
+	if !ok {
+		if b, err := os.ReadFile(p); err == nil {
+			writeIfChanged(p, strings.Replace(string(b), "def slugExtracted : Bool := true", "def slugExtracted : Bool := false", 1))
+		}
+		fmt.Println("extract: slug facts not found")
+		return
+	}
+	mk := callIntArgs(f, "Unpack", "os.MkdirAll", 1)
+	ch := callIntArgs(f, "Unpack", "os.Chmod", 1)
+	content := fmt.Sprintf(`/-! GENERATED by harness/cmd/extract from /repo/slug.go and /repo/internal/unpackinfo/unpackinfo.go — do not edit.
+The bound on followed link chains, the literal permission arguments of os.MkdirAll / os.Chmod inside
+Packer.Unpack (source order), and the tar type flags each UnpackInfo predicate compares with. -/
+namespace Slug.Generated
+
+def maxLinkHops : Nat := %d
+
+def unpackMkdirAllModes : List Nat := %s
+
+def unpackChmodModes : List Nat := %s
+
+def symlinkFlags : List String := %s
+
+def directoryFlags : List String := %s
+
+def regularFlags : List String := %s
+
+def typeXFlags : List String := %s
+
+def slugExtracted : Bool := true
+
+end Slug.Generated
+`, maxHops, int64List(mk), int64List(ch), leanStrList(typeflagNames(u, "IsSymlink")), leanStrList(typeflagNames(u, "IsDirectory")),
+		leanStrList(typeflagNames(u, "IsRegular")), leanStrList(typeflagNames(u, "IsTypeX")))
+	writeIfChanged(p, content)
+}
+
 func writeIfChanged(path, content string) {
 	old, err := os.ReadFile(path)
 	if err == nil && string(old) == content {
@@ -455,6 +579,7 @@ func main() {
 
 	extractRemote(*repo, *out)
 	extractLocks(*repo, *out)
+	extractSlug(*repo, *out)
 	ig := extractIgnore(*repo)
 	if ig.ok {
 		var esc []string
